@@ -4,24 +4,21 @@ import Revm.Spec.Blob
 /-! Driver of component `blob` (C32). All numbers decimal.
 
 * `blob fakeexp <factor> <numerator> <denominator>` → `<u128>` | `panic`
-* `blob price <excess> <is_prague>`                → `<u128>` | `panic`
+* `blob price <excess> <is_prague>`                → `<u128>`
 * `blob excess <parent_excess> <parent_used> <target>` → `<u64>`
-* `blob new <excess> <is_prague>`                  → `<excess> <price> <get_excess> <get_price>` | `panic`
-* `blob parent <parent_excess> <parent_used> <target> <is_prague>` → `<excess> <price>` | `panic`
+* `blob new <excess> <is_prague>`                  → `<excess> <price> <get_excess> <get_price>`
+* `blob parent <parent_excess> <parent_used> <target> <is_prague>` → `<excess> <price>`
 
-The model is the **release** profile (`wrap = true`), the profile the harness is built with.
-A `| spec=` column (EIP-4844 over unbounded integers) is printed exactly when the theorem's domain
-hypothesis holds (`fitsFuel`, resp. `a + b < 2^64`); outside it the model still predicts the code
-(the wrapped value) and the Spec column is withheld because the code is known to differ (C32 finding).
-`too-long`: numerator / denominator > 20000 — the Rust loop would run for too many iterations; both
-sides refuse such a line by the same rule. -/
+The model is the repaired `utilities.rs` (U256 intermediates, saturation). A `| spec=` column is
+printed on **every** line whose denominator is non-zero: the EIP-4844 value over unbounded integers
+clamped to the return type (`Spec.fakeExpSat` = `min r (2^128−1)` by `Props.C32.spec_column_eq`;
+`min(max(0,a+b−t), 2^64−1)` for the excess). A re-introduced wrap therefore shows up as
+implementation ≠ spec. No line is refused any more: with saturation the loop ends after a few
+hundred iterations for every argument. -/
 namespace Driver.Blob
 open Revm Revm.Hex Revm.Model.Blob
 
 def FUEL : Nat := 100000
-def RATIO_LIMIT : Nat := 20000
-
-def tooLong (n d : Nat) : Bool := d ≠ 0 && n / d > RATIO_LIMIT
 
 def num? (s : String) : Option Nat := if s.isEmpty then none else s.toNat?
 
@@ -30,11 +27,12 @@ def showRes : Option (Res Nat) → String
   | some .panic => "panic"
   | some (.ok v) => toString v
 
+def specPrice (f n d : Nat) : Option Nat := Spec.Blob.fakeExpSat FUEL f n d
+
 def fakeexp (f n d : Nat) : String :=
-  if tooLong n d then "too-long" else
-  let m := showRes (fakeExponential true FUEL f n d)
-  if d ≠ 0 ∧ Spec.Blob.fitsFuel FUEL f n d then
-    match Spec.Blob.fakeExpFuel FUEL f n d with
+  let m := showRes (fakeExponential FUEL f n d)
+  if d ≠ 0 then
+    match specPrice f n d with
     | some r => s!"{m} | spec={r}"
     | none => m
   else m
@@ -42,10 +40,19 @@ def fakeexp (f n d : Nat) : String :=
 def frac (p : Bool) : Nat :=
   if p then BLOB_BASE_FEE_UPDATE_FRACTION_ELECTRA else BLOB_BASE_FEE_UPDATE_FRACTION_CANCUN
 
-def showPair : Option (Res BlobExcessGasAndPrice) → String
+def specExcess (a b t : Nat) : Int := Spec.Blob.excessBlobGasClamped a b t
+
+/-- `<excess> <price>` of the model and of the spec for `new` / `from_parent_and_target` -/
+def pair (e : Nat) (se : Int) (p : Bool) (dup : Bool) : String :=
+  match BlobExcessGasAndPrice.new FUEL e p with
   | none => "fuel"
   | some .panic => "panic"
-  | some (.ok v) => s!"{v.excessBlobGas} {v.blobGasprice}"
+  | some (.ok v) =>
+    let m := if dup then s!"{v.excessBlobGas} {v.blobGasprice} {v.excessBlobGas} {v.blobGasprice}"
+             else s!"{v.excessBlobGas} {v.blobGasprice}"
+    match specPrice MIN_BLOB_GASPRICE se.toNat (Spec.Blob.fraction p) with
+    | some r => if dup then s!"{m} | spec={se} {r} {se} {r}" else s!"{m} | spec={se} {r}"
+    | none => m
 
 def handle (toks : List String) : String :=
   match toks with
@@ -55,36 +62,30 @@ def handle (toks : List String) : String :=
      | _, _, _ => "bad-op")
   | ["price", e, p] =>
     (match num? e, parseBool? p with
-     | some e, some p => if e < U64 then fakeexp MIN_BLOB_GASPRICE e (frac p) else "bad-op"
+     | some e, some p =>
+       if e < U64 then
+         let m := showRes (calcBlobGasprice FUEL e p)
+         match specPrice 1 e (Spec.Blob.fraction p) with
+         | some r => s!"{m} | spec={r}"
+         | none => m
+       else "bad-op"
      | _, _ => "bad-op")
   | ["excess", a, b, t] =>
     (match num? a, num? b, num? t with
      | some a, some b, some t =>
        if a < U64 ∧ b < U64 ∧ t < U64 then
-         match calcExcessBlobGas true a b t with
-         | .ok v => if a + b < U64 then s!"{v} | spec={Spec.Blob.excessBlobGas a b t}" else toString v
-         | .panic => "panic"
+         s!"{calcExcessBlobGas a b t} | spec={specExcess a b t}"
        else "bad-op"
      | _, _, _ => "bad-op")
   | ["new", e, p] =>
     (match num? e, parseBool? p with
-     | some e, some p =>
-       if e < U64 then
-         if tooLong e (frac p) then "too-long" else
-         match BlobExcessGasAndPrice.new true FUEL e p with
-         | some (.ok v) => s!"{v.excessBlobGas} {v.blobGasprice} {v.excessBlobGas} {v.blobGasprice}"
-         | r => showPair r
-       else "bad-op"
+     | some e, some p => if e < U64 then pair e (e : Int) p true else "bad-op"
      | _, _ => "bad-op")
   | ["parent", a, b, t, p] =>
     (match num? a, num? b, num? t, parseBool? p with
      | some a, some b, some t, some p =>
        if a < U64 ∧ b < U64 ∧ t < U64 then
-         match calcExcessBlobGas true a b t with
-         | .panic => "panic"
-         | .ok e =>
-           if tooLong e (frac p) then "too-long" else
-           showPair (BlobExcessGasAndPrice.fromParentAndTarget true FUEL a b t p)
+         pair (calcExcessBlobGas a b t) (specExcess a b t) p false
        else "bad-op"
      | _, _, _, _ => "bad-op")
   | _ => "bad-op"
